@@ -261,6 +261,8 @@ def check(src, rep):
     wt, n_wt = wire_type_findings(w, ["cosem", MOD])
     for kind, mod, where, text, line in wt:
         rep.violation("R5", f"{mod}.{where.split(':')[0]}", f"wire-type:{where}", text, src.file(mod), line)
+    from sa.cross import include
+    include(rep, src, "C10", {"R1", "R2", "R3", "R4", "R5"}, "R5", "the meter clock is the transmitted date-time")
     rep.floor("element paths", n_paths, 6)
 
 
